@@ -518,3 +518,9 @@ for _it in UNIT_ASFOUND["items"]:
         _it["methods"][_m].pop("inserts", None)
         if _m == "from_ratio":
             del _it["methods"][_m]
+UNIT_ASFOUND["prelude"] = UNIT_ASFOUND["prelude"] + """
+pub assume_specification [i32::abs] (x: i32) -> (r: i32)
+    requires x > i32::MIN
+    ensures r == abs_int(x as int);
+"""
+UNIT_ASFOUND["trusted"]["i32::abs"] = "std i32::abs (as-found code only)"
